@@ -314,5 +314,5 @@ func TestC11(t *testing.T) {
 		return
 	}
 	r.CheckKnown(parts)
-	r.Rapid("lifetimes", r.N(10000, 150000), c11Prop)
+	r.Rapid("lifetimes", r.N(10000, 600000), c11Prop)
 }
